@@ -20,3 +20,18 @@ package masswallet
 //@   ensures err != nil ==> result == nil
 //@   ensures[C16] err == nil ==> result != nil && result.Value == amount.IntValue() && result.Value != 0
 //@   ensures[C16] err == nil ==> ghost("decKind", encodedAddr) == 1 && clsOf(result.PkScript) == mathint(txscript.WitnessV0ScriptHashTy) && ghosts("scriptHash32", strOf(result.PkScript)) == ghosts("decScript", encodedAddr)
+
+// staking outputs: the k-th appended output pays outputs[k].Amount to a staking script that reads back to the
+// staking address outputs[k].Address and the frozen period outputs[k].FrozenPeriod
+//@ define stakingOutOK(o, s) = (o != nil && allocated(o) && allocated(o.PkScript) && mathint(o.Value) == amt(s.Amount) && ghost("decKind", s.Address) == 2 && clsOf(o.PkScript) == mathint(txscript.StakingScriptHashTy) && ghosts("scriptHash32", strOf(o.PkScript)) == ghosts("decScript", s.Address) && ghostu64("frozenPeriod", strOf(o.PkScript)) == uint64(s.FrozenPeriod))
+//@ func constructStakingTxOut
+//@   props C16
+//@   requires mtx != nil && config.ChainParams != nil
+//@   requires forall qi_ int :: 0 <= qi_ && qi_ < len(outputs) ==> outputs[qi_] != nil && validAmt(outputs[qi_].Amount)
+//@   modifies &mtx.TxOut, mtx.TxOut
+//@   ensures[C16] result == nil ==> len(mtx.TxOut) == old(len(mtx.TxOut)) + len(outputs)
+//@   ensures[C16] result == nil ==> forall qj_ int :: 0 <= qj_ && qj_ < len(outputs) ==> stakingOutOK(mtx.TxOut[old(len(mtx.TxOut))+qj_], outputs[qj_])
+//@   ensures[C16] result == nil ==> forall qj_ int :: 0 <= qj_ && qj_ < old(len(mtx.TxOut)) ==> mtx.TxOut[qj_] == old(mtx.TxOut[qj_])
+//@   loop#1 invariant 0 <= iter_ && iter_ <= len(outputs) && len(mtx.TxOut) == old(len(mtx.TxOut)) + iter_
+//@   loop#1 invariant forall qj_ int :: 0 <= qj_ && qj_ < iter_ ==> stakingOutOK(mtx.TxOut[old(len(mtx.TxOut))+qj_], outputs[qj_])
+//@   loop#1 invariant forall qj_ int :: 0 <= qj_ && qj_ < old(len(mtx.TxOut)) ==> mtx.TxOut[qj_] == old(mtx.TxOut[qj_])
